@@ -13,6 +13,7 @@ import (
 	"strings"
 
 	sdk "github.com/cosmos/cosmos-sdk/types"
+	transfertypes "github.com/cosmos/ibc-go/v7/modules/apps/transfer/types"
 	"github.com/ethereum/go-ethereum/common"
 	"github.com/ethereum/go-ethereum/core/vm"
 
@@ -24,6 +25,7 @@ import (
 type ipReq struct {
 	Mode     string   `json:"mode"`
 	KnownIDs []string `json:"known_ids"`
+	Property string   `json:"property"` // run only the scenarios that test this property ("" = all)
 }
 type ipOut struct {
 	Verdict string      `json:"verdict"`
@@ -40,6 +42,7 @@ type ipScenario struct {
 	ViaCaller bool   `json:"via_contract"`
 	Value     int64  `json:"tx_value"`
 	Amount    int64  `json:"amount"`
+	Revert    bool   `json:"frame_reverts"` // the call frame that made the precompile call reverts afterwards (C05)
 }
 
 func (s *PrecompileTestSuite) ipRun(sc ipScenario) string {
@@ -78,11 +81,24 @@ func (s *PrecompileTestSuite) ipRun(sc ipScenario) string {
 	if err := s.stateDB.Commit(); err != nil {
 		return "scenario: " + err.Error()
 	}
+	snap := s.stateDB.Snapshot() // evm.Call snapshots on entering the frame that makes the precompile call
+	escrow := transfertypes.GetEscrowAddress(path.EndpointA.ChannelConfig.PortID, path.EndpointA.ChannelID)
+	e0 := s.app.BankKeeper.GetBalance(s.ctx, escrow, utils.BaseDenom).Amount.BigInt()
 	if _, err := s.precompile.Transfer(s.ctx, origin, contract, s.stateDB, &method, args); err != nil {
 		return "scenario: precompile call failed: " + err.Error()
 	}
+	if sc.Revert {
+		s.stateDB.RevertToSnapshot(snap) // the frame fails after the precompile call returned (caught by its parent)
+	}
 	if err := s.stateDB.Commit(); err != nil {
 		return "scenario: commit failed: " + err.Error()
+	}
+	if sc.Revert {
+		// C05: a reverted frame leaves no trace
+		if e1 := s.app.BankKeeper.GetBalance(s.ctx, escrow, utils.BaseDenom).Amount.BigInt(); e1.Cmp(e0) != 0 {
+			return fmt.Sprintf("the IBC transfer made inside the reverted frame persists: escrow %s -> %s", e0, e1)
+		}
+		return ""
 	}
 	supply1 := s.app.BankKeeper.GetSupply(s.ctx, utils.BaseDenom).Amount.BigInt()
 	if supply0.Cmp(supply1) != 0 {
@@ -110,14 +126,18 @@ func (s *PrecompileTestSuite) TestVerifReplayICS20Precompile() {
 		known[k] = true
 	}
 	scenarios := []ipScenario{
-		{"", "signer transfers directly", false, 0, 1000},
-		{"", "signer transfers through a contract, no value sent", true, 0, 1000},
-		{"F5-Transfer", "signer sends 1 to a contract that transfers the signer's coins under a grant", true, 1, 1000},
+		{"", "signer transfers directly", false, 0, 1000, false},
+		{"", "signer transfers through a contract, no value sent", true, 0, 1000, false},
+		{"F5-Transfer", "signer sends 1 to a contract that transfers the signer's coins under a grant", true, 1, 1000, false},
+		{"F6-Transfer", "a contract transfers the signer's coins under a grant in a call frame that then reverts", true, 0, 1000, true},
 	}
 	out := ipOut{Verdict: "NOT-REPRODUCED", Bound: fmt.Sprintf("%d whole-transaction scenarios of ics20.transfer of the native coin (who calls x transaction value)", len(scenarios))}
 	var firstKnown *ipOut
 	unknown := false
 	for _, sc := range scenarios {
+		if req.Property != "" && (req.Property == "C05") != sc.Revert {
+			continue // frame-revert scenarios test C05, the others C02
+		}
 		out.Cases++
 		bad := s.ipRun(sc)
 		if bad == "" {
